@@ -127,7 +127,7 @@ Proof.
   intros V2 WOK. pose proof (put_codes_writer c codes WOK) as PUT.
   destruct WOK as (N0 & NB & REQ & OK). set (p := WDictP codes) in *.
   pose proof (w_nonnull_le p) as LE.
-  unfold rd_page_v2_cat. cbn [w_v2_header d2_enc d2_nvals d2_nnulls d2_dlen d2_rlen d2_iscomp].
+  unfold rd_page_v2_cat, cat_prefix. cbn [w_v2_header d2_enc d2_nvals d2_nnulls d2_dlen d2_rlen d2_iscomp].
   assert (E1 : negb ((w_enc p =? E_PLAIN_DICT) || (w_enc p =? E_RLE_DICT) || (w_enc p =? E_RLE) || (w_enc p =? E_PLAIN) ||
                      (w_enc p =? E_DELTA))%Z = false) by reflexivity.
   assert (E2 : negb ((w_enc p =? E_PLAIN_DICT) || (w_enc p =? E_RLE_DICT))%Z = false) by reflexivity.
@@ -166,11 +166,13 @@ Proof.
   assert (KP : 0 < N.of_nat (wc_k c)) by (destruct K as [-> | [-> | ->]]; cbn; lia).
   destruct (lenN (somes codes) =? 0) eqn:K0.
   - (* every cell of the page is missing *)
-    cbn [rbind]. cbn [N.eqb orb andb negb rbind]. change (repN 0 (lenN (somes codes)) []) with (repN 0 (lenN (somes codes)) []).
+    cbn [rbind fst snd]. unfold cat_tail. cbn [N.eqb orb andb negb rbind]. change (repN 0 (lenN (somes codes)) []) with (repN 0 (lenN (somes codes)) []).
     apply N.eqb_eq in K0. rewrite K0. cbn [repN]. rewrite K0 in PUT.
     rewrite lenN_ok in K0. destruct (somes codes) eqn:SCs; [|cbn [length] in K0; lia].
+    replace (lenN codes - (lenN codes - 0)) with 0 by lia.
     change (repN 0 0 []) with (@nil N). exact PUT.
-  - unfold wr_dict_indices. cbn [rbind].
+  - unfold wr_dict_indices. cbn [rbind fst snd]. unfold cat_tail. cbn [rbind fst snd].
+    replace (lenN codes - (lenN codes - lenN (somes codes))) with (lenN (somes codes)) by lia.
     assert (BW : ((8 * N.of_nat (wc_k c) =? 8) || (8 * N.of_nat (wc_k c) =? 16) || (8 * N.of_nat (wc_k c) =? 32)) = true)
       by (destruct K as [-> | [-> | ->]]; reflexivity).
     assert (BK : 8 * N.of_nat (wc_k c) / 8 = N.of_nat (wc_k c)) by (rewrite N.mul_comm; apply N.div_mul; lia).
@@ -186,16 +188,23 @@ Proof.
       destruct (N.of_nat (wc_k c) * lenN (somes codes) =? lenN codes * N.of_nat (wc_k c)) eqn:SAME.
       * apply N.eqb_eq in SAME. assert (FULL : lenN (somes codes) = lenN codes) by nia.
         assert (KZ : (N.of_nat (wc_k c) =? 0) = false) by (apply N.eqb_neq; lia).
+        rewrite N.eqb_refl. replace (lenN codes - lenN (somes codes)) with 0 by lia. cbn [andb N.eqb].
         rewrite KZ. rewrite RC by (rewrite lenN_ok, Nat2N.id; rewrite !lenN_ok in FULL; lia).
         f_equal. apply codes_full. rewrite !lenN_ok in FULL. lia.
-      * rewrite BK. rewrite N.mul_comm, N.mod_mul by lia. cbn [N.eqb negb].
+      * cbn [andb]. rewrite ?andb_false_l. rewrite BK.
+        assert (TK : takeN (lenN (somes codes) * N.of_nat (wc_k c)) (wr_codes (wc_k c) (somes codes)) = wr_codes (wc_k c) (somes codes)).
+        { rewrite takeN_ok. apply firstn_all2. rewrite !lenN_ok in *. rewrite WLevelsProofs.wr_codes_length. lia. }
+        rewrite TK, LC.
+        rewrite N.mul_comm, N.mod_mul by lia. cbn [N.eqb negb].
         rewrite N.div_mul by lia. rewrite RC by (rewrite lenN_ok, Nat2N.id; reflexivity). exact PUT.
     + rewrite BZ. cbn [andb negb].
       pose proof (WLevelsProofs.dict_indices_dec (wc_k c) (somes codes) []) as DD. rewrite app_nil_r in DD.
       apply N.eqb_neq in K0. rewrite (lenN_ok (somes codes)) in *.
       destruct (hyb_dec false (8 * N.of_nat (wc_k c)) (N.of_nat (length (somes codes))) _) as [[ix r]|];
         [|specialize (DD ltac:(lia) CK); discriminate DD].
-      specialize (DD ltac:(lia) CK). cbn [option_map fst] in DD. injection DD as ->. cbn [rbind]. exact PUT.
+      specialize (DD ltac:(lia) CK). cbn [option_map fst] in DD. injection DD as ->.
+      assert (K0b : (N.of_nat (length (somes codes)) =? 0) = false) by (apply N.eqb_neq; exact K0).
+      rewrite ?K0b. cbn [negb rbind]. exact PUT.
 Qed.
 End WithCodecs8.
 
